@@ -390,7 +390,13 @@ func cmdRun(args []string) int {
 		r := o.res
 		merged.Evaluations += r.Evaluations
 		for k, v := range r.Counters {
-			merged.Counters[k] += v
+			if strings.HasPrefix(k, "max.") {
+				if v > merged.Counters[k] {
+					merged.Counters[k] = v
+				}
+			} else {
+				merged.Counters[k] += v
+			}
 		}
 		for _, h := range r.Shapes {
 			shapes[h] = struct{}{}
@@ -494,6 +500,9 @@ func cmdRun(args []string) int {
 
 	if merged.Evaluations < p.MinEvals && len(inconclusive) == 0 && newViol == 0 {
 		inconclusive = append(inconclusive, fmt.Sprintf("only %d evaluations observed (< %d)", merged.Evaluations, p.MinEvals))
+	}
+	if p.Post != nil && newViol == 0 && len(inconclusive) == 0 {
+		inconclusive = append(inconclusive, p.Post(merged.Counters)...)
 	}
 	if p.RunRace != nil && merged.Counters["race.overlaps"] == 0 && merged.Counters["race.ops"] > 0 && newViol == 0 {
 		inconclusive = append(inconclusive, "race workload observed no overlapping operations")
@@ -649,6 +658,9 @@ func confirmDeath(self, racebin, work, prop, tier string, seed uint64, o *childO
 		return fmt.Sprintf("%s|hang|%s", prop, o.progMon), fmt.Sprintf("case %d of %s does not terminate (worker %s, single-case replay killed after 120 s)", o.progCase, o.progMon, what), ""
 	}
 	if err != nil {
+		if harnessPanic(tail) {
+			return "", "", fmt.Sprintf("HARNESS-ERROR: the monitor itself panicked at case %d of %s (not the library):\n%s", o.progCase, o.progMon, tail)
+		}
 		return fmt.Sprintf("%s|crash|%s", prop, o.progMon), fmt.Sprintf("case %d of %s kills the process (runtime fatal): %v\n%s", o.progCase, o.progMon, err, tail), ""
 	}
 	if o.timedOut {
@@ -656,6 +668,27 @@ func confirmDeath(self, racebin, work, prop, tier string, seed uint64, o *childO
 	}
 	// crashed in the batch but not alone: still a fatal the monitors observed
 	return fmt.Sprintf("%s|crash|%s", prop, o.progMon), fmt.Sprintf("worker %d died (%v) near case %d of %s; the single-case replay did not reproduce it\n%s", o.idx, o.err, o.progCase, o.progMon, o.logTail), ""
+}
+
+// harnessPanic reports whether an unrecovered Go panic originated in harness
+// code: the first non-runtime frame of the panicking goroutine is in lwverif/.
+func harnessPanic(log string) bool {
+	i := strings.Index(log, "panic:")
+	if i < 0 {
+		return false
+	}
+	j := strings.Index(log[i:], "[running]:")
+	if j < 0 {
+		return false
+	}
+	for _, ln := range strings.Split(log[i+j:], "\n")[1:] {
+		ln = strings.TrimSpace(ln)
+		if ln == "" || strings.HasPrefix(ln, "/") || strings.HasPrefix(ln, "panic(") || strings.HasPrefix(ln, "runtime.") || strings.HasPrefix(ln, "goroutine") {
+			continue
+		}
+		return strings.HasPrefix(ln, "lwverif/") || strings.HasPrefix(ln, "main.")
+	}
+	return false
 }
 
 var reRaceFunc = regexp.MustCompile(`(?m)^  ([^\s(]+)\(`)
